@@ -176,6 +176,7 @@ class WWorld:
         tx = 'none'
         for g, t, _ in self.stops:
             if t.sent is not None: tx = 'true' if z3.is_true(z3.simplify(t.sent)) else 'false'
+            elif getattr(t, 'dropped', False): tx = 'dropped'       # the request was dropped unanswered (e.g. replaced by a second Stop)
         unused = len(self.script) if self.script is not None else 0
         self.log.append('P=%s,total=%d,q=%d,tx=%s,unused=%d' % ('ready' if ready else 'pending', z3.simplify(self.total()).as_long(), len(self.connch.q), tx, unused))
         self.hist.append('poll:' + ','.join(self.answers_used))
